@@ -4,19 +4,20 @@ reg("C03",
                   "src/hgraph/types/time_series/ts_input/target_link.cpp", "src/hgraph/types/time_series/ts_input/target_link_ops.cpp",
                   "src/hgraph/types/time_series/ts_input/base_view.cpp", "src/hgraph/types/time_series/ts_data/types.cpp",
                   "src/hgraph/runtime/graph.cpp", "src/hgraph/types/graph_wiring.cpp", "include/hgraph/runtime/node_scheduler.h"],
-    quick=dict(defs=dict(NCYC=3, NSOPS=1, DMAX=2, VARIANT_MASK=0x7f), symx=dict(shards=16, **{"max-wall": 900})),
-    thorough=dict(defs=dict(NCYC=4, NSOPS=2, DMAX=2, VARIANT_MASK=0x7f), symx=dict(shards=16, **{"max-wall": 3000, "shard-depth": 8})),
+    quick=dict(defs=dict(NCYC=3, NSOPS=1, DMAX=2, VARIANT_MASK=0xff), symx=dict(shards=16, **{"max-wall": 900})),
+    thorough=dict(defs=dict(NCYC=4, NSOPS=2, DMAX=2, VARIANT_MASK=0xff), symx=dict(shards=16, **{"max-wall": 3000, "shard-depth": 8})),
     reach=["end", "passive_only_tick_while_ready", "active_tick_while_required_invalid", "two_active_inputs_tick_together",
            "ran_on_own_wakeup", "wake_due_while_required_invalid", "cancelled_time_reached", "wake_only_cycle",
            "ran_with_unchecked_input_invalid", "ran_reading_older_passive_value",
-           "variant_marker", "variant_allvalid", "variant_schema_gate", "variant_wake", "variant_nested", "ran_on_schedule_on_start_only"],
+           "variant_marker", "variant_allvalid", "variant_schema_gate", "variant_wake", "variant_nested", "ran_on_schedule_on_start_only", "policy_passive_and_wired_passive_combined"],
     bounds="one observed compute node + sink, fed by scripted sources a,b,c that each tick or not in each of NCYC consecutive cycles (all 2^(3*NCYC) "
-           "tick patterns enumerated, payloads symbolic in [-1000,1000]); 7 gate variants: (0) a active+required, b InputActivity::Passive+required, "
+           "tick patterns enumerated, payloads symbolic in [-1000,1000]); 8 gate variants: (0) a active+required, b InputActivity::Passive+required, "
            "c active+InputValidity::Unchecked, State<Int> run counter; (1) b made passive by the wiring-time passive(port) marker; (2) {a,b} as one TSB input "
            "with InputValidity::AllValid; (3) the same contract registered as a native-callback node so that node.cpp ready_to_evaluate / valid_inputs decides; "
            "(4) a active, b passive, plus NodeScheduler requests from start() and from the first NSOPS runs: none / schedule(d) / schedule(d,'a') / "
            "un_schedule('a') / schedule+un_schedule in one evaluation / schedule(d,'a') then schedule(d2,'a'), d,d2 symbolic in [1,DMAX] us, with DMAX+1 trailing "
-           "wake-up-only cycles; (5) variant 0 inside a nested child graph (single_nested_graph_node); (6) a schedule_on_start node without required inputs (a active, b passive, c active, all Unchecked)",
+           "wake-up-only cycles; (5) variant 0 inside a nested child graph (single_nested_graph_node); (6) a schedule_on_start node without required inputs (a active, b passive, c active, all Unchecked); "
+           "(7) a active+required, b InputActivity::Passive+required, c Unchecked wired through passive(port) - both passive mechanisms on one node",
     outside="more than NCYC input cycles / NSOPS scheduling evaluations; more than three inputs; collection-shaped inputs other than a 2-field TSB (TSL/TSD/TSS "
             "validity and Structural activity); REF inputs (C13); nodes inside map_/switch_/reduce children; nesting deeper than one level; push sources; "
             "requests for the current or a past time (C18) and cycle timing itself (C02)",
